@@ -191,8 +191,8 @@ class Impl:
         self._orig_init = ParseNeighbor._init_neighbor
         self._orig_parse = Configuration.parse_section
 
-        def init_neighbor(pn, neighbor, local):
-            r = me._orig_init(pn, neighbor, local)
+        def init_neighbor(pn, neighbor, local, *more):
+            r = me._orig_init(pn, neighbor, local, *more)
             if me.parse_log and me.parse_log[-1]['open']:
                 me.parse_log[-1]['prefix'].append(
                     (me.ids.nbname(neighbor.name()), me.ids.params(neighbor), [me.ids.route(x) for x in neighbor.routes]))
@@ -599,11 +599,16 @@ def impl_obs(im):
     }
 
 
+# which tree the model is evaluated for: `tree` is the constant of Model_Reload.v (what /repo is declared to
+# be); C17_TREE=pinned|rollback_only|repaired only serves to validate a proposed patch in a scratch worktree
+TREE = os.environ.get('C17_TREE', 'tree')
+
+
 def model_eval(traces, tag):
     shards = common.chunked(list(range(len(traces))), 40)
 
     def defs(idx):
-        return 'Eval vm_compute in [' + ';\n'.join(f'observe tree {coq_trace(traces[i])}' for i in idx) + '].\n'
+        return 'Eval vm_compute in [' + ';\n'.join(f'observe {TREE} {coq_trace(traces[i])}' for i in idx) + '].\n'
 
     res = common.eval_cases(HEADER, defs, shards, tag)
     out = [None] * len(traces)
@@ -842,8 +847,14 @@ def judge(case, im):
             out[key_of_name(names[nid])] = (rib['up'], tx.table(rib['peer']), rib['queued'], rib['withdraws'])
         return out
 
-    def check_final(old, new, probe, sig):
+    def check_final(old, new, probe, sig, unchanged=False):
         want = expected_tables(case, old, new, probe)
+        if unchanged:
+            # no reload took effect: exactly what was there, API operations on file prefixes included
+            want = {k: dict(t) for k, t in table_before(case).items()}
+            for t in want.values():
+                if probe:
+                    t['probe'] = True
         got = peer_tables()
         cfg_keys = sorted(key_of_name(names[n]) for n in im.final['neighbors'])
         if cfg_keys != sorted(want):
@@ -907,7 +918,7 @@ def judge(case, im):
         else:
             check_final(case['old'], case['then'], bool(im.api_ok), f'reload-after-failed-reload:{cls}')
     else:
-        check_final(case['old'], case['old'], bool(im.api_ok), f'failed-reload:afterwards:{cls}')
+        check_final(case['old'], case['old'], bool(im.api_ok), f'failed-reload:afterwards:{cls}', unchanged=True)
     return probs
 
 
@@ -1061,7 +1072,7 @@ def check(tier, seed):
 
     live = [i for i, im in enumerate(impls) if im is not None]
     ok, model, logs = model_eval([impls[i].trace for i in live], 'c17')
-    run.obligation('model evaluation (vm_compute of Model_Reload.observe tree on every history) ran', ok, '\n'.join(logs)[-2000:])
+    run.obligation(f'model evaluation (vm_compute of Model_Reload.observe {TREE} on every history) ran', ok, '\n'.join(logs)[-2000:])
 
     corr_bad = []
     outcomes = collections.Counter()
